@@ -43,7 +43,7 @@ def spec_st(draw, max_n=7, min_workers=1):
     lm1 = draw(st.sampled_from([None, None, None, -1.5, -2.5]))
     origin = draw(st.sampled_from([0.0, 0.0, 0.5, cap if cap is not None else 1.5, lm1 if lm1 is not None else -1.0]))
     return simdrv.lattice_spec(
-        lm1=lm1, origin=origin,
+        lm1=lm1, origin=origin, keep_side=draw(st.sampled_from([False, False, False, True])),  # companion files kept via output.keep_traj_fnames
         ensemble_engines=ens_engs, extra_engines=extra,
         n=n, moves=moves, workers=workers, steps=0, seed=draw(st.sampled_from([0, 1, 7, 2**31 + 5]) | st.integers(0, 2**32 - 1)),
         cap=cap, wall=draw(st.sampled_from([-1, -2, -4])) if lm1 is None else -4, n_jumps=draw(st.sampled_from([1, 2, 3, 6])),
